@@ -139,7 +139,8 @@ fn judge<A: Attr>(rep: &mut Report, t: &InTri, out: &[Tri<ClipVert<A>>], rng: &m
     rep.count("status.needs_clipping");
 
     // (3) no output point outside (position space, always checked)
-    let tol_pos = 1e-5 * scale;
+    // (real rounding is about 3e-7·scale: one f32 lerp of coordinates of that size)
+    let tol_pos = 3e-6 * scale;
     for (ti, Tri(ov)) in out.iter().enumerate() {
         for (j, o) in ov.iter().enumerate() {
             let p: [f64; 4] = o.pos.0.map(|x| x as f64);
@@ -149,7 +150,7 @@ fn judge<A: Attr>(rep: &mut Report, t: &InTri, out: &[Tri<ClipVert<A>>], rng: &m
             }
             for k in 0..6 {
                 let dd = pdist(k, &p);
-                rep.worst("plane_excess/scale", dd / scale, 1e-5, String::new);
+                rep.worst("plane_excess/scale", dd / scale, 3e-6, String::new);
                 if dd > tol_pos {
                     rep.violation(
                         "clip.output_outside_frustum",
@@ -174,6 +175,31 @@ fn judge<A: Attr>(rep: &mut Report, t: &InTri, out: &[Tri<ClipVert<A>>], rng: &m
     let cond = if alt_min > 0.0 { scale / alt_min } else { f64::INFINITY };
     if !(cond <= 1e3) {
         rep.skip("uv_oracle.ill_conditioned_or_degenerate_input");
+        // what can still be said of slivers and zero-area input: every output
+        // vertex is a convex combination of the input vertices, so each of its
+        // coordinates and attribute components lies within the input's range
+        for (ti, Tri(ov)) in out.iter().enumerate() {
+            for (j, o) in ov.iter().enumerate() {
+                let oc = o.attrib.comps();
+                for c in 0..A::N {
+                    let (lo, hi) = (0..3).fold((f64::INFINITY, f64::NEG_INFINITY), |(lo, hi), i| (lo.min(t.a[i][c] as f64), hi.max(t.a[i][c] as f64)));
+                    let slack = 1e-5 * lo.abs().max(hi.abs()) + 1e-30;
+                    if !((oc[c] as f64) >= lo - slack && (oc[c] as f64) <= hi + slack) {
+                        rep.violation("clip.wrong_vertex_attribute", format!("degenerate input: output tri {ti} vertex {j} has attribute component {c} = {} outside the input's range [{lo}, {hi}]", oc[c]), cj());
+                        return;
+                    }
+                }
+                for k in 0..4 {
+                    let (lo, hi) = (0..3).fold((f64::INFINITY, f64::NEG_INFINITY), |(lo, hi), i| (lo.min(v[i][k]), hi.max(v[i][k])));
+                    let x = o.pos.0[k] as f64;
+                    if !(x >= lo - tol_pos && x <= hi + tol_pos) {
+                        rep.violation("clip.output_outside_input_triangle", format!("degenerate input: output tri {ti} vertex {j} coordinate {k} = {x} lies outside the input's range [{lo}, {hi}]"), cj());
+                        return;
+                    }
+                }
+            }
+        }
+        rep.count("degenerate_inputs_range_checked");
         return;
     }
     rep.count("uv_oracle.applied");
@@ -184,7 +210,7 @@ fn judge<A: Attr>(rep: &mut Report, t: &InTri, out: &[Tri<ClipVert<A>>], rng: &m
     // around every plane: `lo` is the part inside by more than the band,
     // `hi` the part not outside by more than the band. The output must
     // cover at least `lo` and at most `hi`.
-    let band = 1e-5 * scale;
+    let band = 3e-6 * scale;
     let clip_all = |off: f64| -> Vec<P2> {
         let mut poly: Vec<P2> = vec![(0.0, 0.0), (1.0, 0.0), (0.0, 1.0)];
         for k in 0..6 {
@@ -396,6 +422,9 @@ fn gen_random(rng: &mut Rng, big: bool) -> [[f32; 4]; 3] {
                     rng.ulp_nudge(s) // ± 1 ulp of a plane
                 }
                 2 => 0.0,
+                // inside or outside a plane by a relative 1e-7 .. 1e-2: where
+                // snapping and epsilon comparisons would bite
+                3 => rng.sign() * w * (1.0 + rng.sign() * rng.log_f32(1e-7, 1e-2)),
                 _ => w.abs() * rng.f32_in(-r, r),
             }
         };
@@ -584,7 +613,16 @@ fn scale_case<A: Attr>(rng: &mut Rng, rep: &mut Report) {
 
 /// (8) batch independence: clip(all) == concat(clip([t])) bit-for-bit.
 fn batch_case<A: Attr>(rng: &mut Rng, rep: &mut Report) {
-    let n = rng.int(2, 8) as usize;
+    // mostly a handful; also the empty call, a single triangle, and batches
+    // of hundreds (mesh-sized calls)
+    let n = match rng.below(40) {
+        0 => 0,
+        1 => 1,
+        2 => 64,
+        3 => rng.int(300, 1000) as usize,
+        _ => rng.int(2, 8) as usize,
+    };
+    rep.count(if n == 0 { "batch.empty" } else if n >= 64 { "batch.large" } else { "batch.small" });
     let tris: Vec<InTri> = (0..n)
         .map(|_| {
             let kind = rng.pick(&[0u32, 1, 2, 2, 3, 3, 4]);
@@ -619,6 +657,16 @@ fn batch_case<A: Attr>(rng: &mut Rng, rep: &mut Report) {
         match clip_one::<A>(t) {
             Ok(o) => {
                 nonempty += !o.is_empty() as u64;
+                // each member's own output is judged absolutely too (not only
+                // library output against library output), on small batches
+                if n <= 8 {
+                    let before = rep.n_violations();
+                    judge::<A>(rep, t, &o, rng);
+                    rep.count("batch.slices_judged");
+                    if rep.n_violations() > before {
+                        return;
+                    }
+                }
                 concat.extend(o)
             }
             Err(m) => {
@@ -713,6 +761,13 @@ pub fn run(cfg: &Cfg, rep: &mut Report) {
     rep.floor("out_tris.3", 2_000);
     rep.floor("out_tris.4", 500);
     rep.floor("out_tris.5", 50);
+    rep.floor("out_tris.6", 20);
+    rep.floor("planes_crossed.3", 10_000);
+    rep.floor("planes_crossed.4", 1_000);
+    rep.floor("degenerate_inputs_range_checked", 5_000);
+    rep.floor("batch.slices_judged", 20_000);
+    rep.floor("batch.empty", 300);
+    rep.floor("batch.large", 500);
     rep.floor("w.mixed", 10_000);
     rep.floor("w.none_positive", 1_000);
     rep.floor("status.wholly_inside", 1_000);
